@@ -63,6 +63,14 @@ type SRegRec struct {
 	SeekTs  uint64 `json:"seek_ts"`
 	Next    int    `json:"next"` // index into the pchannel log of the first entry considered
 	Clock   int    `json:"clock"`
+	// filled for data streams in the C03 runs: the downstream the stream belongs to, its collection, the downstream channels
+	// of that collection at registration time, and the time (ms) of the checkpoint stored for (owner, collection, source
+	// channel) when the stream was registered (-1: none)
+	Tgt     int      `json:"tgt,omitempty"`
+	Coll    int64    `json:"coll,omitempty"`
+	Owner   string   `json:"owner,omitempty"`
+	TgtPChs []string `json:"tgt_pchs,omitempty"`
+	CkptMs  int64    `json:"ckpt_ms,omitempty"`
 }
 
 type SRejRec struct {
@@ -110,6 +118,8 @@ type SState struct {
 	Rejected     []SRejRec                            `json:"rejected,omitempty"`      // downstream write rejections attributed to a task
 	Down         map[int]bool                         `json:"down,omitempty"`          // downstreams that currently reject every write
 	BadPack      map[string]bool                      `json:"bad_pack,omitempty"`      // packs (by call key) the downstream refuses on every attempt
+	LockOrder    map[string][][3]uint64               `json:"lock_order,omitempty"`    // C03 runs: downstream channel -> (incarnation, closing tick, end message id) of every pack in the order they were computed under the channel lock
+	CkptHist     map[string][][2]int64                `json:"ckpt_hist,omitempty"`     // C03 runs: "task|collection|source pchannel" -> (message id, time in ms) of every version of the stored checkpoint, in the order they were seen
 	StaleAck     map[string]bool                      `json:"stale_ack,omitempty"`     // "target|collection|shard" -> a pack of an earlier registration was acknowledged after the stream had been registered again
 	Forwarded    map[string][][2]int                  `json:"forwarded,omitempty"`     // "collection|source pchannel" -> (start, end] message-id ranges of packs that took the forward path (hook H15)
 	MsgCalls     int                                  `json:"msg_calls"`               // running number of drop-message store calls
@@ -528,6 +538,25 @@ func (r *RigS) build() {
 			r.mu.Unlock()
 		}
 		w.OnAckData = func(channel string, endSeq int, names []string) { r.onAckData(tgtIdx, channel, endSeq, names) }
+		if r.plan.Prop == "C03" {
+			w.OpenMax = func(channel string) int {
+				shard, max := -1, -1
+				if i := strings.LastIndex(channel, "_"); i >= 0 {
+					fmt.Sscanf(channel[i+1:], "%d", &shard)
+				}
+				for _, st := range r.mq.All {
+					if st.Shard != shard || st.PCh == replicateChan || st.Closed || r.targetOfStream(st) != tgtIdx {
+						continue
+					}
+					for _, dp := range st.Delivered {
+						if dp.EndSeq > max {
+							max = dp.EndSeq
+						}
+					}
+				}
+				return max
+			}
+		}
 		pfx := fmt.Sprintf("t%c:", 'a'+i)
 		w.Gate = func(ctx context.Context, kind, key string) Outcome {
 			if r.direct {
@@ -603,6 +632,13 @@ func (r *RigS) build() {
 		if p, ok := ref.(*msgstream.MsgPack); ok && point == "pack:locked" && len(p.EndPositions) > 0 {
 			r.mu.Lock()
 			lastLocked[ch] = MsgIDToSeq(p.EndPositions[0].MsgID)
+			if r.plan.Prop == "C03" {
+				// the order in which closing ticks are computed under the channel lock (a = the closing tick)
+				if r.st.LockOrder == nil {
+					r.st.LockOrder = map[string][][3]uint64{}
+				}
+				r.st.LockOrder[ch] = append(r.st.LockOrder[ch], [3]uint64{uint64(r.plan.Incarnation), a, uint64(MsgIDToSeq(p.EndPositions[0].MsgID))})
+			}
 			r.mu.Unlock()
 		}
 		if p, ok := ref.(*msgstream.MsgPack); ok && point == "pack:forward" && len(p.EndPositions) > 0 {
